@@ -66,6 +66,29 @@ func foldNamePred(p *Prog, f *Fn, e ast.Expr, name string) (val bool, ok bool) {
 				return name, true
 			}
 		case *ast.Ident:
+			// a local with one definition: what it was computed from
+			if o := info.Uses[x]; o != nil {
+				var defs []ast.Expr
+				ast.Inspect(f.Body(), func(n ast.Node) bool {
+					if as, ok := n.(*ast.AssignStmt); ok {
+						for i, l := range as.Lhs {
+							if identObj(info, l) == o {
+								if len(as.Lhs) == len(as.Rhs) {
+									defs = append(defs, as.Rhs[i])
+								} else {
+									defs = append(defs, nil)
+								}
+							}
+						}
+					}
+					return true
+				})
+				if len(defs) == 1 && defs[0] != nil {
+					if s, ok := str(defs[0]); ok {
+						return s, true
+					}
+				}
+			}
 			// a local holding the name
 			if strings.Contains(strings.ToLower(x.Name), "name") {
 				return name, true
